@@ -246,7 +246,7 @@ func (ib *inbound) gate(cond ssa.Value) (string, bool) {
 			if strings.HasSuffix(Path(lk.X), ".Operations()") {
 				return "opKnown", pol
 			}
-			if strings.Contains(Path(lk.X), ".pendingWriteApprovals[]") {
+			if strings.Contains(Path(lk.X), "."+FN("FeatureLocal.pendingWriteApprovals")+"[]") {
 				return "pendingClaimed", pol
 			}
 		}
@@ -294,11 +294,11 @@ func (ib *inbound) effect(site ssa.CallInstruction, f *pathFacts) string {
 		// asynchronous start of a callback kept in a field of the local feature
 		src := Path(c.Value)
 		switch {
-		case strings.Contains(src, ".writeApprovalCallbacks"):
+		case strings.Contains(src, "."+FN("FeatureLocal.writeApprovalCallbacks")):
 			return "startApprovalCallback"
-		case strings.Contains(src, ".responseMsgCallback"):
+		case strings.Contains(src, "."+FN("FeatureLocal.responseMsgCallback")):
 			return "startResponseCallback"
-		case strings.Contains(src, ".resultCallbacks"):
+		case strings.Contains(src, "."+FN("FeatureLocal.resultCallbacks")):
 			return "startResultCallback"
 		}
 	}
